@@ -23,6 +23,7 @@ Definition oracle_params_ok : Prop :=
   (forall a b, ORACLE_GC_MARK_CMP a b = N.ltb b a) /\
   (forall a b, ORACLE_RETAIN_CMP a b = N.leb b a) /\
   (forall a b, ORACLE_ROLLBACK_CMP a b = N.eqb a b) /\
+  (forall a b, ORACLE_PUBLISH_SAME_CMP a b = N.eqb a b) /\
   COMMIT_FIRST_SEQ = 1.
 
 Section Stmts.
@@ -40,7 +41,7 @@ Definition retry_only_when_pruned_stmt : Prop :=
 Definition check_conflict_iff_stmt : Prop :=
   forall s keys start, kept_since s <= start ->
     (check fp s keys start = VConflict <->
-     exists k v, In k keys /\ fm_get (fp k) (recent s) = Some v /\ start < v).
+     exists k v, In k keys /\ fm_stamp (fp k) (recent s) = Some v /\ start < v).
 
 (* ---------- the sequential commit machine ---------- *)
 
@@ -51,7 +52,7 @@ Definition check_conflict_iff_stmt : Prop :=
    max exists.  Only stamps > start >= kept_since matter to `check`.) *)
 Definition sound (s : cstate) : Prop :=
   forall m ks k, In (m, ks) (c_done s) -> kept_since (c_orc s) < m -> In k ks ->
-    exists v, fm_get (fp k) (recent (c_orc s)) = Some v /\ m <= v.
+    exists v, fm_stamp (fp k) (recent (c_orc s)) = Some v /\ m <= v.
 
 (* the pruning mark never passes a registered open transaction *)
 Definition watermark_ok (s : cstate) : Prop :=
@@ -59,76 +60,67 @@ Definition watermark_ok (s : cstate) : Prop :=
 
 (* every recorded stamp belongs to a successful commit that wrote a key with that fingerprint *)
 Definition justified (s : cstate) : Prop :=
-  forall f v, fm_get f (recent (c_orc s)) = Some v ->
+  forall f v, fm_stamp f (recent (c_orc s)) = Some v ->
     exists ks k, In (v, ks) (c_done s) /\ In k ks /\ fp k = f.
 
-Definition oracle_sound_no_failures_stmt : Prop :=
-  forall steps, no_fail steps -> sound (run fp G false steps c0).
-Definition oracle_sound_fixed_stmt : Prop :=
-  forall steps, sound (run fp G true steps c0).
+(* OracleSound holds after EVERY history: failed commits (WAL/apply failure followed by
+   rollback), restores, every GC position, write-only and unregistered committers *)
+Definition oracle_sound_stmt : Prop :=
+  forall steps, sound (run fp G steps c0).
 Definition watermark_ok_stmt : Prop :=
-  forall fixed steps, no_restore steps ->
-    let s := run fp G fixed steps c0 in
+  forall steps, no_restore steps ->
+    let s := run fp G steps c0 in
     watermark_ok s /\ kept_since (c_orc s) <= c_visible s.
 
-(* first committer wins, crate's rollback, histories without WAL/apply failures *)
-Definition no_lost_update_no_failures_stmt : Prop :=
+(* first committer wins, ALL histories (failures and restores included): an accepted commit of T
+   means that no successful commit with a stamp above T's start wrote one of T's keys *)
+Definition no_lost_update_stmt : Prop :=
   forall steps id keys fail t m ks k,
-    no_fail steps ->
-    let s := run fp G false steps c0 in
+    let s := run fp G steps c0 in
     tx_get id (c_txs s) = Some t ->
-    step_outcome fp G false s (SCommit id keys fail) = OOk ->
-    In (m, ks) (c_done s) -> t_start t < m -> In k keys -> ~ In k ks.
-
-(* first committer wins, repaired rollback, ALL histories (failures and restores included) *)
-Definition no_lost_update_fixed_stmt : Prop :=
-  forall steps id keys fail t m ks k,
-    let s := run fp G true steps c0 in
-    tx_get id (c_txs s) = Some t ->
-    step_outcome fp G true s (SCommit id keys fail) = OOk ->
+    step_outcome fp G s (SCommit id keys fail) = OOk ->
     In (m, ks) (c_done s) -> t_start t < m -> In k keys -> ~ In k ks.
 
 (* no false conflict: an open transaction that is not behind the pruning mark and none of whose
    keys was written by an overlapping commit is accepted — when fp does not collide on the keys of
-   the history.  Holds with the crate's rollback and with the repaired one, with failures and
-   restores in the history. *)
+   the history.  Holds with failures and restores in the history. *)
 Definition accepted (keys : list bytes) (fail : bool) : outcome :=
   match keys with [] => OOk | _ => if fail then OFailed else OOk end.
 Definition no_false_conflict_stmt : Prop :=
-  forall fixed steps id keys fail t,
-    let s := run fp G fixed steps c0 in
+  forall steps id keys fail t,
+    let s := run fp G steps c0 in
     inj_on fp (steps_keys steps ++ keys) ->
     tx_get id (c_txs s) = Some t -> t_closed t = false ->
     kept_since (c_orc s) <= t_start t ->
     (forall m ks k, In (m, ks) (c_done s) -> t_start t < m -> In k keys -> ~ In k ks) ->
-    step_outcome fp G fixed s (SCommit id keys fail) = accepted keys fail.
+    step_outcome fp G s (SCommit id keys fail) = accepted keys fail.
 
 (* a transaction that registered when it began is never answered Retry (no restore in the history) *)
 Definition registered_never_retry_stmt : Prop :=
-  forall fixed steps id keys fail t,
+  forall steps id keys fail t,
     no_restore steps ->
-    let s := run fp G fixed steps c0 in
+    let s := run fp G steps c0 in
     tx_get id (c_txs s) = Some t -> t_reg t = true ->
-    step_outcome fp G fixed s (SCommit id keys fail) <> ORetry.
+    step_outcome fp G s (SCommit id keys fail) <> ORetry.
 
 (* the two together: the second sentence of the property *)
 Definition commit_accepted_stmt : Prop :=
-  forall fixed steps id keys fail t,
+  forall steps id keys fail t,
     no_restore steps ->
-    let s := run fp G fixed steps c0 in
+    let s := run fp G steps c0 in
     inj_on fp (steps_keys steps ++ keys) ->
     tx_get id (c_txs s) = Some t -> t_reg t = true ->
     (forall m ks k, In (m, ks) (c_done s) -> t_start t < m -> In k keys -> ~ In k ks) ->
-    step_outcome fp G fixed s (SCommit id keys fail) = accepted keys fail.
+    step_outcome fp G s (SCommit id keys fail) = accepted keys fail.
 
 (* the clamp min(oldest_active, start): whatever the trackers say (ANY state, registered or not),
    a commit that got past the check leaves the pruning mark at or below the committer's start *)
 Definition gc_clamp_ok_stmt : Prop :=
-  forall fixed s id keys fail t,
+  forall s id keys fail t,
     tx_get id (c_txs s) = Some t -> keys <> [] ->
-    (step_outcome fp G fixed s (SCommit id keys fail) = OOk \/
-     step_outcome fp G fixed s (SCommit id keys fail) = OFailed) ->
-    kept_since (c_orc (step_state fp G fixed s (SCommit id keys fail))) <= t_start t.
+    (step_outcome fp G s (SCommit id keys fail) = OOk \/
+     step_outcome fp G s (SCommit id keys fail) = OFailed) ->
+    kept_since (c_orc (step_state fp G s (SCommit id keys fail))) <= t_start t.
 
 (* overlap in time is overlap in sequence numbers (restore-free continuation): a transaction that
    begins in state s1 gets start = c_visible s1; every successful commit that happens afterwards
@@ -136,35 +128,26 @@ Definition gc_clamp_ok_stmt : Prop :=
    with stamp m completed after t began".  (Across a restore that rewinds the counter this is
    false: new stamps restart at max+1 and can be <= the start of a transaction that stayed open.) *)
 Definition later_commits_have_later_stamps_stmt : Prop :=
-  forall fixed pre post m ks, no_restore post ->
-    let s1 := run fp G fixed pre c0 in
-    In (m, ks) (c_done (run fp G fixed post s1)) -> In (m, ks) (c_done s1) \/ c_visible s1 < m.
+  forall pre post m ks, no_restore post ->
+    let s1 := run fp G pre c0 in
+    In (m, ks) (c_done (run fp G post s1)) -> In (m, ks) (c_done s1) \/ c_visible s1 < m.
 
 (* a refused commit changes nothing *)
 Definition refused_has_no_effect_stmt : Prop :=
-  forall fixed s c o, step_outcome fp G fixed s c = o ->
+  forall s c o, step_outcome fp G s c = o ->
     o = OConflict \/ o = ORetry \/ o = ONoTx \/ o = OClosed \/ o = OBad ->
-    step_state fp G fixed s c = s.
+    step_state fp G s c = s.
 End Stmts.
 
-(* ---------- refutations on the model of the pinned code ---------- *)
-(* a lost update: some history (with one failed commit), accepted commit of a transaction T, and
-   an earlier successful commit overlapping T that wrote one of T's keys *)
-Definition lost_update (fp : bytes -> N) (G : N) (fixed : bool) : Prop :=
-  exists steps id keys t m ks k,
-    let s := run fp G fixed steps c0 in
-    tx_get id (c_txs s) = Some t /\
-    step_outcome fp G fixed s (SCommit id keys false) = OOk /\
-    In (m, ks) (c_done s) /\ t_start t < m /\ In k keys /\ In k ks.
-
+(* ---------- refutation on the model of the pinned code ---------- *)
 (* after a restore that rewinds the counter below the start of a still-open transaction, a
    transaction that begins (registered) after the restore is answered Retry although nothing
    was pruned for it; the state in which that happens has kept_since > visible, so EVERY later
    transaction is answered Retry as well *)
-Definition fresh_retry_after_restore (fp : bytes -> N) (G : N) (fixed : bool) : Prop :=
+Definition fresh_retry_after_restore (fp : bytes -> N) (G : N) : Prop :=
   exists steps id keys t,
-    let s := run fp G fixed steps c0 in
+    let s := run fp G steps c0 in
     tx_get id (c_txs s) = Some t /\ t_reg t = true /\ t_closed t = false /\
     t_start t = c_visible s /\
-    step_outcome fp G fixed s (SCommit id keys false) = ORetry /\
+    step_outcome fp G s (SCommit id keys false) = ORetry /\
     c_visible s < kept_since (c_orc s).
